@@ -8,3 +8,8 @@ void print_bad(Hdr *h) { printf("%s", h->name); }
 void print_bad2(Hdr *h) { char buf[64]; strcpy(buf, "x: "); strcat(buf, h->method); puts(buf); }
 void scrub_ok(unsigned char *s) { unsigned char *p; for (p = s; *p != 0; ++p) { if (*p < 0x20 || *p >= 0x7f) *p = '?'; } }
 void scrub_bad(unsigned char *s) { unsigned char *p; for (p = s; *p != 0; ++p) { if (*p < 0x20 || *p > 0x7f) *p = '?'; } }
+/* numbers printed as bytes (C18 R4): harmless as %d, an archive byte as %c or through a static buffer */
+static const char *tag_of(int os) { static char t[8]; if (os == 'U') return "[unix]"; sprintf(t, "[%c]", os); return t; }
+void byte_ok(Hdr *h) { char b[16]; sprintf(b, "%d", h->size); printf("%s %5d\n", b, h->size); }
+void byte_bad(Hdr *h) { printf("%c", h->size); }
+void byte_bad2(Hdr *h) { printf("%-10s", tag_of(h->size)); }
